@@ -1201,6 +1201,50 @@ func main() {
 		}
 		s.Sample(map[string]any{"pair": describe(pcase{Base: 1, A: []int{11}, B: []int{12}}, all), "meaning": "x and y are the fully populated TestAllTypes with the named mutations; every comparer (Equal(), 6 float tolerances, 6 timestamp and 6 duration tolerances, a combination) is applied to (x,y), (y,x), (x,x) and compared with an independent reference equality"})
 	})
+	// nil, typed nil, empty and populated messages of TWO message types, every ordered pair, every comparer: with
+	// nothing a tolerance could bridge, a comparer says what proto.Equal says (different types are different, also
+	// when both are nil; a typed nil equals the empty message of its type; nil equals only nil)
+	h.Seq("nil-and-foreign", func(s *hx.Seq) {
+		if !s.Own() {
+			return
+		}
+		ops := []struct {
+			name string
+			m    proto.Message
+		}{
+			{"nil", nil},
+			{"(*TestAllTypes)(nil)", (*T)(nil)},
+			{"(*OnOff)(nil)", (*traits.OnOff)(nil)},
+			{"(*Brightness)(nil)", (*traits.Brightness)(nil)},
+			{"&TestAllTypes{}", &T{}},
+			{"&OnOff{}", &traits.OnOff{}},
+			{"&Brightness{}", &traits.Brightness{}},
+			{"&OnOff{ON}", &traits.OnOff{State: traits.OnOff_ON}},
+			{"&Brightness{50}", &traits.Brightness{LevelPercent: 50}},
+		}
+		for _, cp := range comparers() {
+			for _, x := range ops {
+				for _, y := range ops {
+					s.Eval(1)
+					s.Trans(1)
+					s.State(cp.name + " " + x.name + " " + y.name)
+					var got bool
+					if p := func() (p any) {
+						defer func() { p = recover() }()
+						got = cp.msg(x.m, y.m)
+						return nil
+					}(); p != nil {
+						s.Fail(fmt.Sprintf("panic %s %s vs %s", cp.name, x.name, y.name), fmt.Sprint(p), nil)
+						continue
+					}
+					if want := proto.Equal(x.m, y.m); got != want {
+						s.Fail(fmt.Sprintf("verdict %s %s vs %s", cp.name, x.name, y.name), fmt.Sprintf("comparer says %v, proto.Equal says %v", got, want), nil)
+					}
+				}
+			}
+		}
+		s.Sample("every comparer on every ordered pair of {nil, typed nils of three types, their empty messages, two populated ones}: the verdict is proto.Equal's")
+	})
 	h.Seq("logic", func(s *hx.Seq) {
 		if !s.Own() {
 			return
